@@ -593,6 +593,19 @@ def check_rejection(case):
             ps = pd.DataFrame({v: [spec["states"][v][k % len(spec["states"][v])] for k in range(size)]})
             others = [u for u in nodes if u != v]
             for ev in ([e for e in _evidence_sets(spec, rng, 3, positive=True) if v not in e][:2] + [{}]):
+                if ev:
+                    # with evidence the enumerating RNG stub can reject the same rows for ever (an artefact of the
+                    # stub, not of pgmpy): this combination runs on the real RNG and checks the structural contract only
+                    df = s.rejection_sample(evidence=list(ev.items()), size=3, include_latents=True, show_progress=False,
+                                            partial_samples=ps, seed=case.get("seed", 0) if isinstance(case, dict) else 0)
+                    if len(df) != 3:
+                        return {"key": "rejection_sample:partial_samples:rows", "what": f"partial_samples on {v}, evidence {ev}: {len(df)} rows instead of 3"}
+                    for e_var, e_val in ev.items():
+                        if not all(x == e_val for x in df[e_var]):
+                            return {"key": "rejection_sample:partial_samples:evidence-violated", "what": f"evidence {ev} not respected: {list(df[e_var])}"}
+                    if v in df.columns and not set(df[v]) <= set(ps[v]):
+                        return {"key": "rejection_sample:partial_samples:column-not-preserved", "what": f"column {v}: {list(df[v])} not among the partial samples"}
+                    continue
                 rec = Recorder()
                 with patched(rec):
                     df = s.rejection_sample(evidence=list(ev.items()), size=3, include_latents=True, show_progress=False, partial_samples=ps)
